@@ -27,8 +27,8 @@ EXPLANATION = (
 RULE_TEXT = 'one obligation per capture-table entry (available / read / leading position / not shadowed), per action x scenario (priority), per join site, per emission site, per positional consumer'
 ASSUMPTIONS = ['pyparsing combinator semantics as modelled in sa/grammar.py',
                'decides capture, priority, separators, prefixing and emission structurally; inertness of comments at every admissible position of every document is not decided']
-ENGINES = ['pyindex', 'grammar', 'paths']
-TECHNIQUE = 'static analysis (ast): results-name flow and adjacency on the grammar IR; three-valued path evaluation of the parse actions; template shape of the comment helper; call-site rules on the registered renderers'
+ENGINES = ['pyindex', 'grammar', 'paths', 'specialise']
+TECHNIQUE = 'static analysis (ast): results-name flow and adjacency on the grammar IR; three-valued path evaluation of the parse actions; template shape of the comment helper; call-site rules on the registered renderers; parse actions read with value helpers in place; stores-unconditionally obligations'
 
 LEADING = 'comment_before'
 TRAILING = 'comment'
